@@ -1125,7 +1125,7 @@ def run_reference(case, base, trig, emulate=()):
     orig_ai = X._ApplyImports.run
 
     def at_run(self, st, c, out):
-        if self.select is None and c.node.kind == 'attribute' and c.node.value:
+        if self.select is None and c.node.kind == 'attribute':
             trig.hit.add('attr-children')
         return orig_at(self, st, c, out)
 
@@ -1344,9 +1344,36 @@ def strip_top(ev):
     return normalize(ev)
 
 
-def parse_output(text):
+def parse_output(text, want_doc=False):
     d = model.parse_document('<W__>' + text + '</W__>')
+    if want_doc:
+        return d
     return X.model_to_events(d.root)[0][3]
+
+
+def ns_sets_ref(node, inherited, out):
+    """per element (pre-order): set of namespace URIs that must be in scope =
+    namespace nodes of the element and its ancestors + URIs of the names used"""
+    for c in node.children:
+        if c.kind != 'element':
+            continue
+        u = set(inherited)
+        u.update(v for v in c.namespaces.values() if v)
+        if c.uri:
+            u.add(c.uri)
+        for a in c.attributes:
+            if a.uri and a.uri != X.XML_NS:
+                u.add(a.uri)
+        out.append(u)
+        ns_sets_ref(c, u, out)
+
+
+def ns_sets_lib(node, out):
+    for c in node.children:
+        if c.kind != 'element':
+            continue
+        out.append(set(n.value for n in c.namespaces if n.local != 'xml'))
+        ns_sets_lib(c, out)
 
 
 def run_case(seed, deviant, tmp, keep=False, case=None):
@@ -1385,6 +1412,23 @@ def run_case(seed, deviant, tmp, keep=False, case=None):
         except ValueError as e:
             return 'libxslt-error', classes, 'unparsable output: %s' % e
         if mine == theirs:
+            a, b = [], []
+            ns_sets_ref(r, set(), a)
+            ns_sets_lib(parse_output(out, True).root.children[0], b)
+            ex = 'http://exslt.org/common'
+            a = [x - set([ex]) for x in a]
+            b = [x - set([ex]) for x in b]
+            # libxslt copies the inherited namespace nodes only to literal result
+            # elements that are direct children of xsl:template (not to those
+            # nested in xsl:if/for-each/...), so only "every namespace libxslt
+            # has in scope is one the Recommendation puts there" is checked
+            sub = len(a) == len(b) and all(y <= x for x, y in zip(a, b))
+            if not sub and not any('namespace-alias' in t for t in case.files.values()):
+                if any('<xsl:include' in t for t in case.files.values()) and any('exclude-result-prefixes' in t for t in case.files.values()):
+                    classes.add('exclude-include')
+                if any('xsl:exclude-result-prefixes' in t for t in case.files.values()):
+                    classes.add('lre-exclude-self')
+                return 'ns-differ', classes, 'ref %r\n   libxslt %r\n   %s' % (a, b, out[:300])
             return 'agree', classes, ''
         if 'builtin-params' in classes:
             # libxslt passes parameters through the built-in rules: verify that
@@ -1557,7 +1601,7 @@ def main():
                         unsup[k] = unsup.get(k, 0) + 1
                     if status in ('agree', 'unsupported'):
                         continue
-                    explained = sorted(c for c in classes if not c.startswith('recovery:')) if status in ('differ', 'libxslt-error') else []
+                    explained = sorted(c for c in classes if not c.startswith('recovery:')) if status in ('differ', 'libxslt-error', 'ns-differ') else []
                     rec = [c for c in classes if c.startswith('recovery:')]
                     key = (status, tuple(explained or rec))
                     if a.seeds_of and a.seeds_of in ','.join(sorted(classes)):
